@@ -344,7 +344,7 @@ def _timeout_of(F, ev):
         if r['k'] == 'disp' and r.get('ev') == ev:
             break
     to = (F.sc.get('timeouts') or {}).get(str(typ))
-    return to
+    return None if to == 'inf' else to
 
 
 def c10_facts(F: Facts):
@@ -472,9 +472,12 @@ def c11(F: Facts):
     v = []
     fin = F.final
     raised = {}  # me -> kind ('raise' | 'excobj')
+    own_cancel = set()
     for r in F.tr:
         if r['k'] == 'exit' and r['how'] == 'raise':
             raised[(r['bus'], r['ev'], r['h'])] = 'raise'
+        if r['k'] == 'exit' and r['how'] == 'raise-cancelled':
+            own_cancel.add((r['bus'], r['ev'], r['h']))
     if not F.hang:
         for (bus, ev), idxs in F.enq.items():
             s = fin.get(ev)
@@ -492,7 +495,10 @@ def c11(F: Facts):
                     continue
                 r = rows[0]
                 spec = F.sc['handlers'][hi]
-                if me in raised:
+                if me in own_cancel:
+                    if r['st'] != 'error' or r['err'] != 'CancelledError':
+                        v.append(('C11.a', f'handler h{hi} of event {ev} on {bus} ended with a CancelledError of its own (it awaited a cancelled future); its result is {r["st"]} err={r["err"]}'))
+                elif me in raised:
                     if r['st'] != 'error':
                         v.append(('C11.a', f'handler h{hi} of event {ev} on {bus} raised but its result is {r["st"]}'))
                     elif r['errkey'] != list(me):
